@@ -21,6 +21,9 @@ CLAIMED = {
  "C07": dict(cat="fault_enumeration", ref="4.10", technique="fault injection on simulated wire traffic: exhaustive enumeration of every single fault (truncation, bit flip, boundary length words, NUL damage, byte loss/duplication, splice, garbage) per valid base message, seeded multi-fault sequences; ASan exact-size blocks + independent strict decoder",
    text="A sender emits valid generated messages (<= 512 bytes); for each one every single wire fault is enumerated exhaustively and seeded sequences of 2..4 faults are added; each damaged buffer is handed to the receiver in an exact-size heap block under AddressSanitizer: length/validity functions must stay inside, terminate and report 0 or <= n, and whenever the validator accepts, every accessor and the iterator must stay inside and agree with an independent strict-bounds decoder written in the harness. No schedule involved; claimed as fault enumeration. No coverage-guided fuzzing and no blind enumeration of all short buffers (other techniques).",
    note="Trusted: AddressSanitizer, the reference decoder (lenient about padding content; unknown tags carry no data). Base messages are sampled (seeded); single faults per base message are exhaustive."),
+ "C03": dict(cat="exploration", ref="4.8", technique="deterministic simulation with an allocator/mutex seam: interposed malloc family and pthread_mutex_lock observed inside the simulated realtime party's section while seeded UI/RT histories drive every dispatch strategy and message kind",
+   text="A UI party and a realtime party exchange messages through two real ThreadLinks; the realtime party dispatches into a perfect-hash table, a linear-fallback table, #N tables, a three-level recursion, a cloned table with default handler and every macro-generated parameter kind (with and without location buffer), forwards replies/broadcasts, and performs direct calls (build, measure, validate, accessors, iterator, match, bundles). Any malloc/calloc/realloc/free/memalign/operator new/delete or pthread_mutex_(try)lock inside the realtime section is a violation, reported with the call stack. Allocation does not depend on the interleaving here; the simulator contributes the section boundary, ring states and histories.",
+   note="Trusted: symbol interposition of the allocator family and pthread_mutex_lock in a plain (non-ASan) build. Only code paths the workload reaches are observed; absence of an allocation on an unreached error path is not shown. Macro-generated callbacks are only dispatched with a location buffer (documented precondition)."),
 }
 PENDING = {}
 NA = {
